@@ -6,6 +6,7 @@ the visited right node, and partners of different right nodes are different.
 import XmlDiffModel.Proofs.AlongG
 import XmlDiffModel.Proofs.Counts
 import XmlDiffModel.Proofs.Counts2
+import XmlDiffModel.Proofs.CountsF
 
 namespace XmlDiffModel
 namespace Once
@@ -114,12 +115,12 @@ theorem targets_all (sel : Sel) (qn : QName) (Q : Nat → Prop) (acts : List Act
 def HitP (sel : Sel) (qn : QName) (l : Nat) (p : PState) (a : Action) : Prop :=
   ∀ path nd, sel a = some path → uniqueHit qn p.tree path = .ok nd → nd.id = l
 
-/-- selectors that pick the node path of rename / text / tail actions only -/
+/-- selectors that pick the node path of rename / text / tail / attribute actions only -/
 structure GoodSel (sel : Sel) : Prop where
   ren : ∀ path tag p', sel (.renameNode path tag) = some p' → p' = path
   txt : ∀ path v p', sel (.updateTextIn path v) = some p' → p' = path
   tail : ∀ path v p', sel (.updateTextAfter path v) = some p' → p' = path
-  attr : ∀ path a, IsAttrOn path a → sel a = none
+  attr : ∀ path a p', IsAttrOn path a → sel a = some p' → p' = path
   ins : ∀ tp tag pos, sel (.insertNode tp tag pos) = none
   insc : ∀ tp pos v, sel (.insertComment tp pos v) = none
   move : ∀ p1 p2 pos, sel (.moveNode p1 p2 pos) = none
@@ -127,18 +128,18 @@ structure GoodSel (sel : Sel) : Prop where
 
 theorem goodSel_ren : GoodSel renSel := by
   refine ⟨?_, ?_, ?_, ?_, ?_, ?_, ?_, ?_⟩ <;> intros <;> simp_all [renSel]
-  · rename_i path a h
-    cases a <;> simp_all [IsAttrOn]
+  · rename_i path a p' h hs
+    cases a <;> simp_all [IsAttrOn, renSel]
 
 theorem goodSel_text : GoodSel textSel := by
   refine ⟨?_, ?_, ?_, ?_, ?_, ?_, ?_, ?_⟩ <;> intros <;> simp_all [textSel]
-  · rename_i path a h
-    cases a <;> simp_all [IsAttrOn]
+  · rename_i path a p' h hs
+    cases a <;> simp_all [IsAttrOn, textSel]
 
 theorem goodSel_tail : GoodSel tailSel := by
   refine ⟨?_, ?_, ?_, ?_, ?_, ?_, ?_, ?_⟩ <;> intros <;> simp_all [tailSel]
-  · rename_i path a h
-    cases a <;> simp_all [IsAttrOn]
+  · rename_i path a p' h hs
+    cases a <;> simp_all [IsAttrOn, tailSel]
 
 theorem hit_id (qn : QName) (t : Tree) (l : Nat) (path : Path) (nd : Tree) (hp : pathStr qn t l = .ok path)
     (hh : uniqueHit qn t path = .ok nd) : nd.id = l :=
@@ -155,7 +156,9 @@ theorem obl_hit (sel : Sel) (g : GoodSel sel) (qn : QName) : Along.Obl qn (HitP 
   · intro l t nx path v hp p' nd hs hh
     rw [g.tail path v p' hs] at hh
     exact hit_id qn t l path nd hp hh
-  · intro l p path a ha p' nd hs; rw [g.attr path a ha] at hs; cases hs
+  · intro l t nx path a hp ha p' nd hs hh
+    rw [g.attr path a p' ha hs] at hh
+    exact hit_id qn t l path nd hp hh
   · intro l p tp tag pos p' nd hs; rw [g.ins] at hs; cases hs
   · intro l p tp pos v p' nd hs; rw [g.insc] at hs; cases hs
   · intro l p p1 p2 pos p' nd hs; rw [g.move] at hs; cases hs
@@ -314,6 +317,39 @@ theorem scriptGen_once (sel : Sel) (g : GoodSel sel) (cnt : Action → Bool)
       have hout : s2.out.reverse = a1 ++ a2 := by rw [st.out]; simp
       rw [hout, targets_append sel qn a1 a2 _ _ st1.replay, ht2, List.append_nil]
       exact hnd1
+
+/-- the attribute actions that name the attribute `k` -/
+def keySel (k : Str) : Sel := fun a =>
+  if mentions k a then
+    (match a with
+      | .updateAttrib n _ _ => some n
+      | .deleteAttrib n _ => some n
+      | .insertAttrib n _ _ => some n
+      | .renameAttrib n _ _ => some n
+      | _ => none)
+  else none
+
+theorem goodSel_key (k : Str) : GoodSel (keySel k) := by
+  refine ⟨?_, ?_, ?_, ?_, ?_, ?_, ?_, ?_⟩ <;> intros <;> simp_all [keySel, mentions]
+  · rename_i path a p' h hs
+    cases a <;> simp_all [IsAttrOn, keySel]
+
+theorem isSome_keySel (k : Str) (a : Action) : ((keySel k) a).isSome = mentions k a := by
+  unfold keySel
+  cases h : mentions k a
+  · simp
+  · cases a <;> simp_all [mentions]
+
+/-- **In the replay of a differ script the attribute actions that name one attribute hit pairwise different nodes.** -/
+theorem scriptGen_once_key (k : Str) (qn : QName) (cfg : Cfg) (L R : Tree) (M : List (Nat × Nat)) (fresh : Nat)
+    (script : List Action) (final : Tree) (hL : (ids L).Nodup) (hRn : (ids R).Nodup)
+    (hfL : ∀ i ∈ ids L, i < fresh) (hM : GoodMatching L R M)
+    (hA : ∀ x ∈ bfs R, (keys x.payload.attrs).Nodup)
+    (h : scriptGen qn cfg L R M fresh = .ok (script, final)) :
+    (targets (keySel k) qn ⟨L, fresh⟩ script).Nodup :=
+  scriptGen_once (keySel k) (goodSel_key k) _ (isSome_keySel k)
+    (fun qn cfg R x s s' hx hv => visit_mentions k qn cfg R x s s' hx hv) qn cfg L R M fresh script final hL hRn hfL
+    hM hA h
 
 theorem isSome_renSel (a : Action) : (renSel a).isSome = isRen a := by cases a <;> rfl
 theorem isSome_textSel (a : Action) : (textSel a).isSome = isTxt a := by cases a <;> rfl
